@@ -22,13 +22,13 @@ func init() {
 		Decides:     []string{"D2 log-after-success in the dispatcher", "D3 sync-before-ack and SELECT marker in log.Store.Write", "D7 restore order and replay database", "T2 mutating handlers are write-classified", "R2 the log's own SELECT marker is well-formed RESP for every database index", "L1 the log handle is used only under the store mutex"},
 		NotCovered:  []string{"that replaying the logged commands reproduces the dataset (value semantics of each handler)", "torn final record tolerance (behaviour of tidwall/resp on given bytes)", "everysec/no timing"},
 		Assumptions: []string{"os.File.Sync is durable; os.O_APPEND appends atomically"},
-		Rules:       []RuleRef{{ID: "D2"}, {ID: "D3"}, {ID: "D7"}, {ID: "T2"}, {ID: "R2", Scope: []string{"internal/aof"}, Floor: 2}, {ID: "L1", Scope: []string{"log.Store"}, Floor: 2}, {ID: "D5"}},
+		Rules:       []RuleRef{{ID: "D2"}, {ID: "D3"}, {ID: "D7"}, {ID: "T2"}, {ID: "R2", Scope: []string{"internal/aof"}, Floor: 2}, {ID: "L1", Scope: []string{"log.Store"}, Floor: 2}, {ID: "D5"}, {ID: "OA"}, {ID: "N3", Scope: []string{"rebinds-database", "replay-context"}, Floor: 2}},
 	})
 	defProp(&Prop{ID: "C03", Title: "Snapshot round trip",
 		Explanation: stance + "Decided clauses: (1) every concrete type handlers store as a value is reproduced with the same dynamic type by the snapshot codec (E8); (2) the restore callbacks store data.Value and data.ExpireAt for the same key and database, the state callbacks copy every database and key (RC); (3) the expired-key filter removes exactly entries whose non-zero deadline is before now (X3 on FilterExpiredKeys); (4) the automatic trigger fires when the change count is at or above the threshold and not below (TR); (5) LASTSAVE is published only after the snapshot is durable and named in the manifest (D6 d); (6) the state copy runs under the store lock (L1 on getState).",
 		Decides:     []string{"E8 codec table agreement", "RC restore/state callbacks", "X3 expired-key filter orientation", "TR automatic trigger", "D6(d) last-save after publish", "L1 state copy under the store lock"},
 		NotCovered:  []string{"equality of the restored dataset with the dataset at the snapshot instant (needs execution)", "timing of the snapshot interval"},
-		Rules: []RuleRef{{ID: "E8"}, {ID: "RC"}, {ID: "X3", Scope: []string{"internal.FilterExpiredKeys"}, Floor: 1}, {ID: "TR"},
+		Rules: []RuleRef{{ID: "E8"}, {ID: "RC"}, {ID: "X3", Scope: []string{"internal.FilterExpiredKeys"}, Floor: 2}, {ID: "TR"},
 			{ID: "D6", Scope: []string{"|d:lastsave", "|e:writer-reader"}, Floor: 2}, {ID: "L1", Scope: []string{"sugardb.(*SugarDB).getState|"}, Floor: 1}},
 		Tech: "static analysis: type-flow table of stored dynamic types vs a model of encoding/json; SSA dataflow identity; abstract evaluation over orderings",
 	})
@@ -44,7 +44,7 @@ func init() {
 		Decides:     []string{"L1 lock discipline over the frozen guard table", "L2 lock order / self-deadlock", "D8 flag pairing", "L4 command-level atomicity (reported per handler)", "P3 in-place mutation outside the lock (reported per handler)"},
 		NotCovered:  []string{"linearizability of replies over histories", "liveness under contention", "the busy-wait handshake between state copy and state mutation (check-then-set on two atomics)"},
 		Assumptions: []string{"the guard table (field -> lock) frozen in locks.go is the intended discipline; it was inferred from the majority of accesses and confirmed by reading"},
-		Rules:       []RuleRef{{ID: "L1"}, {ID: "L2"}, {ID: "D8"}, {ID: "L4"}, {ID: "P3"}},
+		Rules:       []RuleRef{{ID: "L1"}, {ID: "L2"}, {ID: "D8"}, {ID: "L4"}, {ID: "P3"}, {ID: "T7"}},
 		Tech:        "static analysis: interprocedural must-lockset over SSA CFGs with wrapper summaries, caller-chain requirement propagation (VTA), gate-aware lock-order graph, store-reference taint",
 	})
 	defProp(&Prop{ID: "C06", Title: "ACL authorization",
@@ -71,7 +71,8 @@ func init() {
 		Decides:     []string{"D5 rewrite order and critical section", "D7 restore order", "D8 start/finish pairing", "E8 preamble codec table", "L1 the AOF / preamble handles are used only under their store mutex", "RC preamble restore/state callbacks"},
 		NotCovered:  []string{"equality of restored datasets; interleavings beyond lock coverage"},
 		Rules: []RuleRef{{ID: "D5"}, {ID: "D7"}, {ID: "D8", Scope: []string{"internal/aof.", "getState", "handleCommand"}, Floor: 3}, {ID: "E8"},
-			{ID: "L1", Scope: []string{"internal/aof", "preamble.Store", "log.Store"}, Floor: 4}, {ID: "RC", Scope: []string{"|set-key-data", "|get-state"}, Floor: 4}, {ID: "R2", Scope: []string{"internal/aof"}, Floor: 2}},
+			{ID: "L1", Scope: []string{"internal/aof", "preamble.Store", "log.Store"}, Floor: 4}, {ID: "RC", Scope: []string{"|set-key-data", "|get-state"}, Floor: 4}, {ID: "R2", Scope: []string{"internal/aof"}, Floor: 2},
+			{ID: "X3", Scope: []string{"internal.FilterExpiredKeys"}, Floor: 2}, {ID: "RW"}, {ID: "OA"}},
 	})
 	defProp(&Prop{ID: "C10", Title: "Snapshots are crash-atomic",
 		Explanation: stance + "Decided by a typestate over the file operations of TakeSnapshot: the manifest at its final path is replaced only after the new state file was written and fsynced successfully, by an atomic rename of a temporary that was written, fsynced and closed; no failure / nothing-new return is preceded by a manifest replacement or a last-save update; LASTSAVE is published only after the manifest is in place; writer and reader build the same paths (D6); the snapshot-in-progress indication is cleared on every exit (D8).",
@@ -107,6 +108,7 @@ func init() {
 		Rules: []RuleRef{
 			{ID: "WT", Scope: []string{"internal/modules/hash."}, Not: []string{"handleHSET|"}, Floor: 10},
 			{ID: "AR", Scope: []string{"internal/modules/hash."}, Floor: 25},
+			{ID: "P2", Scope: []string{"internal/modules/hash."}, Floor: 3},
 			{ID: "NUM", Scope: []string{"internal/modules/hash."}, Floor: 2},
 		},
 	})
@@ -117,6 +119,7 @@ func init() {
 		Rules: []RuleRef{
 			{ID: "WT", Scope: []string{"internal/modules/list."}, Floor: 9},
 			{ID: "AR", Scope: []string{"internal/modules/list."}, Floor: 25},
+			{ID: "P2", Scope: []string{"internal/modules/list."}, Floor: 3},
 		},
 	})
 	defProp(&Prop{ID: "C16", Title: "Set commands",
@@ -126,6 +129,7 @@ func init() {
 		Rules: []RuleRef{
 			{ID: "WT", Scope: []string{"internal/modules/set."}, Floor: 15},
 			{ID: "AR", Scope: []string{"internal/modules/set."}, Floor: 25},
+			{ID: "P2", Scope: []string{"internal/modules/set."}, Floor: 3},
 			{ID: "R1", Scope: []string{"internal/modules/set."}, Floor: 22},
 		},
 	})
@@ -136,6 +140,7 @@ func init() {
 		Rules: []RuleRef{
 			{ID: "WT", Scope: []string{"internal/modules/sorted_set."}, Floor: 20},
 			{ID: "AR", Scope: []string{"internal/modules/sorted_set."}, Floor: 80},
+			{ID: "P2", Scope: []string{"internal/modules/sorted_set."}, Floor: 3},
 			{ID: "NUM", Scope: []string{"internal/modules/sorted_set."}, Floor: 2},
 		},
 	})
@@ -149,14 +154,15 @@ func init() {
 		Explanation: stance + "Decided clauses: the memory counter is written only by the functions that add/replace/remove/clear store entries (M1); each such function pairs the store mutation with the matching adjustment: += new size and -= replaced size on writes, -= on removal, -= all on clear (M2); handlers that grow or shrink a stored object in place, which the counter cannot follow, are inventoried (P3).",
 		Decides:     []string{"M1 accounting ownership", "M2 accounting pairing", "P3 in-place mutators (reported per handler)"},
 		NotCovered:  []string{"the size function's figures", "equality of the figure with a fresh instance holding the same dataset (value-level)"},
-		Rules:       []RuleRef{{ID: "M1"}, {ID: "M2"}, {ID: "P3"}},
+		Rules:       []RuleRef{{ID: "M1"}, {ID: "M2"}, {ID: "P3"}, {ID: "GM"}},
 	})
 	defProp(&Prop{ID: "C20", Title: "Logical databases",
 		Explanation: stance + "Decided clauses: every read of the request's database from the context is reached only with contexts that carry it (N1); every index into a per-database structure is the request's database, a loop variable over the databases or a parameter (N2); the database travels unchanged into the AOF append, the replicated request, the FSM's handler context and the AOF replay (D2 e, N3); the AOF writer logs a SELECT marker before a command for another database (D3); the maintenance functions cover every per-database structure (PD).",
 		Decides:     []string{"N1 context must-keys", "N2 per-database indexing", "N3 + D2(e) database identity across AOF / raft", "D3 SELECT marker", "PD per-database structures"},
 		NotCovered:  []string{"FLUSHDB vs FLUSHALL argument choice, SWAPDB semantics (value-level)", "behaviour across restarts"},
 		Rules: []RuleRef{{ID: "N1"}, {ID: "N2"}, {ID: "N3"}, {ID: "D2", Scope: []string{"|e:log-database"}, Floor: 1},
-			{ID: "D3", Scope: []string{"select-marker", "current-database"}, Floor: 2}, {ID: "D7", Scope: []string{"replay-database"}, Floor: 1}, {ID: "PD", Not: []string{"heap-emptied"}, Floor: 12}, {ID: "R2", Scope: []string{"internal/aof"}, Floor: 2}},
+			{ID: "D3", Scope: []string{"select-marker", "current-database"}, Floor: 2}, {ID: "D7", Scope: []string{"replay-database"}, Floor: 1}, {ID: "PD", Not: []string{"heap-emptied"}, Floor: 12}, {ID: "R2", Scope: []string{"internal/aof"}, Floor: 2},
+			{ID: "X3", Scope: []string{"internal.FilterExpiredKeys"}, Floor: 2}, {ID: "N4"}},
 	})
 }
 
